@@ -12,7 +12,17 @@
   3. The facts (Release, Resp{for,status,Content-Length,body length,fill}, End{closed,left,garbage}) are validated by
      TLC against spec/http/HttpPipelineTrace.tla.  Executions that need a deviation action are classified through
      the known findings (signature = deviation action); everything else that is rejected is a violation.
-  4. thorough tier: several pipelines concurrently on several connections of one server.
+  4. Large bodies (64 KiB, 1 MiB, 4 MiB; position-dependent pattern) pipelined with small ones: in the model a large
+     response is two write steps inside one critical section (Dev_SplitSendUnlocked = TRUE violates NoInterleave); on the
+     code the small handlers return while the first octets of the large response are on the wire (negative entries of
+     the return order), plus ungated 'natural' repetitions with handler delays of 0..6 ms.  The oracle rejects every
+     response whose Content-Length is not the body that follows or whose body is not that handler's octets, whatever
+     the order of the responses.
+  5. The driver never writes after the single send, so a complete request left waiting in the server's buffer shows as a
+     missing response (AllAnswered; Dev_ExtractOnlyFirst in the model).  Unparsable class includes Content-Length values
+     that wrap modulo 2^64 (followed by body octets / by another request): status >= 400 or close, no handler entered.
+  6. thorough tier: several pipelines concurrently on several connections of one server.
+The self-tests of the trace specification use fixed synthetic executions (never what the tree under test produced).
 """
 import os, json, concurrent.futures as cf
 import vf
@@ -24,20 +34,25 @@ SIGNATURES = {"DevRespOutOfOrder": {"spec": "HttpPipelineTrace", "deviation_acti
 
 V_QUICK = [("G", 5, False), ("G", 0, False), ("G", 5, True), ("H", 5, False), ("P", 3, False), ("C", 3, False),
            ("T", 0, False), ("R", 3, False), ("N", 0, False), ("M", 0, False), ("O", 0, False), ("B", 1, False),
-           ("B", 3, False), ("U", 1, False), ("U", 2, False)]
-V_MORE = [("H", 5, True), ("T", 0, True), ("N", 0, True), ("P", 3, True), ("B", 2, False), ("B", 4, False), ("U", 3, False)]
+           ("B", 3, False), ("U", 1, False), ("U", 2, False), ("U", 4, False), ("U", 5, False),
+           ("L", 64, False), ("L", 1024, False), ("L", 4096, False)]
+V_MORE = [("H", 5, True), ("T", 0, True), ("N", 0, True), ("P", 3, True), ("B", 2, False), ("B", 4, False), ("U", 3, False),
+          ("L", 1024, True)]
 # pipelines of three requests are drawn from this subset in the quick tier
 V_SMALL = [("G", 5, False), ("G", 5, True), ("H", 5, False), ("P", 3, False), ("T", 0, False), ("N", 0, False), ("B", 1, False),
-           ("U", 1, False)]
+           ("U", 1, False), ("L", 1024, False)]
 
 METHOD = {"G": "GET", "H": "HEAD", "P": "POST", "C": "POST", "T": "GET", "R": "GET", "N": "GET", "M": "DELETE", "O": "OPTIONS",
-          "B": "GET", "U": "POST"}
+          "B": "GET", "U": "POST", "L": "GET"}
 
 
-def render_request(r, xid):
+def render_request(r, xid, delay_us=None):
     k, n, close = r["k"], r["n"], r["close"]
     fill = chr(ord("a") + xid % 10).encode()
-    common = b"Host: x\r\nX-Id: %d\r\n" % xid + (b"Connection: close\r\n" if close else b"")
+    common = b"Host: x\r\nX-Id: %d\r\n" % xid + (b"Connection: close\r\n" if close else b"") + \
+        (b"X-Delay: %d\r\n" % delay_us if delay_us else b"")
+    if k == "L":
+        return b"GET /big/%d HTTP/1.1\r\n" % n + common + b"\r\n"
     if k in ("G", "H"):
         return b"%s /ok/%d HTTP/1.1\r\n" % (METHOD[k].encode(), n) + common + b"\r\n"
     if k == "P":
@@ -62,17 +77,23 @@ def render_request(r, xid):
     if k == "U":       # the length of the message cannot be decided
         return {1: b"POST /echo HTTP/1.1\r\n" + common + b"Transfer-Encoding: chunked\r\n\r\nzz\r\nabc\r\n0\r\n\r\n",
                 2: b"POST /echo HTTP/1.1\r\n" + common + b"Content-Length: 3abc\r\n\r\nabc",
-                3: b"POST /echo HTTP/1.1\r\n" + common + b"Content-Length: 3\r\nTransfer-Encoding: chunked\r\n\r\n3\r\nabc\r\n0\r\n\r\n"}[n]
+                3: b"POST /echo HTTP/1.1\r\n" + common + b"Content-Length: 3\r\nTransfer-Encoding: chunked\r\n\r\n3\r\nabc\r\n0\r\n\r\n",
+                # values that are no representable length and wrap modulo 2^64 to a small one (3 / 0)
+                4: b"POST /echo HTTP/1.1\r\n" + common + b"Content-Length: 18446744073709551619\r\n\r\n" + fill * 3,
+                5: b"POST /echo HTTP/1.1\r\n" + common + b"Content-Length: 18446744073709551616\r\n\r\n" +
+                   b"GET /ok/5 HTTP/1.1\r\nHost: x\r\nX-Id: %d\r\n\r\n" % xid}[n]
     raise vf.Infra("no rendering for request class " + k)
 
 
 def case_line(case, group, par, local, wait_ms):
     pipe = case["pipe"]
-    stream = b"".join(render_request(r, local * 10 + i + 1) for i, r in enumerate(pipe))
+    delays = case.get("delays") or [None] * len(pipe)
+    stream = b"".join(render_request(r, local * 10 + i + 1, delays[i]) for i, r in enumerate(pipe))
     specs = ",".join("%s:%d:%s" % (r["k"], r["n"], METHOD[r["k"]]) for r in pipe)
     return "%d %d %d %d %d %d | %s | %s | %s | %s" % (
         group, par, local, wait_ms, case["wantResp"], 1 if case["wantClose"] else 0,
-        json.dumps(pipe, separators=(",", ":")), specs, stream.hex(), ",".join(str(i) for i in case["order"]))
+        json.dumps(pipe, separators=(",", ":")), specs, stream.hex(),
+        ",".join((["*"] if case.get("natural") else []) + [str(i) for i in case["order"]]))
 
 
 def mc(ck, name, variants, maxlen, devs=(), export=False, workers=3):
@@ -84,8 +105,10 @@ def mc(ck, name, variants, maxlen, devs=(), export=False, workers=3):
     cfg = os.path.join(d, "MCPipe.cfg")
     vf.write_cfg(cfg, constants={"Variants": "<- MCVariants", "MaxLen": maxlen, "Workers": workers,
                                  "Dev_CompletionOrder": "Dev_CompletionOrder" in devs,
-                                 "Dev_BadFramingWaits": "Dev_BadFramingWaits" in devs},
-                 invariants=["InOrder", "AllAnswered"] + (["CaseOut"] if export else []))
+                                 "Dev_BadFramingWaits": "Dev_BadFramingWaits" in devs,
+                                 "Dev_SplitSendUnlocked": "Dev_SplitSendUnlocked" in devs,
+                                 "Dev_ExtractOnlyFirst": "Dev_ExtractOnlyFirst" in devs},
+                 invariants=["InOrder", "AllAnswered", "NoInterleave"] + (["CaseOut"] if export else []))
     return vf.run_tlc(os.path.join(d, "MCPipe.tla"), cfg, tag="C16_" + name, workers=6 if export else 2, coverage=export,
                       lib_dirs=[SPECDIR], timeout=1500)
 
@@ -109,7 +132,7 @@ def cases_of(r):
 
 def nontrivial(case):
     ks = [r["k"] for r in case["pipe"]]
-    return len(ks) > 1 or ks[0] in ("H", "C", "T", "R", "B", "U") or case["pipe"][0]["close"]
+    return len(ks) > 1 or ks[0] in ("H", "C", "T", "R", "B", "U", "L") or case["pipe"][0]["close"]
 
 
 def trace_cfg(ck, allowed, evalpass=False):
@@ -150,8 +173,8 @@ def known_list(ck):
 
 
 def describe(case, evs):
-    return "pipeline %s, handlers return in order %s: %s" % (
-        json.dumps(case["pipe"], separators=(",", ":")), case["order"],
+    return "pipeline %s, handlers return in order %s%s: %s" % (
+        json.dumps(case["pipe"], separators=(",", ":")), case["order"], " (natural run, delays %s us)" % case.get("delays") if case.get("natural") else "",
         json.dumps([{k: v for k, v in e.items()} for e in evs if e["e"] in ("Release", "Resp", "End")], separators=(",", ":"))[:700])
 
 
@@ -285,61 +308,81 @@ def judge(ck, cases, lines, out_path, name, retry=True):
                 ck.more_violations = getattr(ck, "more_violations", 0) + 1
 
 
-def self_test_trace(ck, cases, out_path):
-    """corrupted traces must be rejected even with the deviation actions allowed; an out-of-order trace must be rejected
-    by the strict configuration"""
-    execs = vf.split_executions(vf.read_ndjson(out_path))
-    cfg_dev, cfg_strict = trace_cfg(ck, DEV_ACTIONS), trace_cfg(ck, [])
-    cfg_eval = trace_cfg(ck, [], True)
+def R(k, n=0, close=False):
+    return {"k": k, "n": n, "close": close}
 
-    def val(evs, cfg, tag):
-        p = os.path.join(ck.work, "selftest_%s.ndjson" % tag)
+
+def resp(for_, st, cl, bl=None, fill=True, alien=False):
+    return {"e": "Resp", "for": for_, "st": st, "cl": cl, "bl": cl if bl is None else bl, "fill": fill, "alien": alien}
+
+
+def end(closed=False, left=0, garbage=False, invoked=()):
+    return {"e": "End", "closed": closed, "left": left, "garbage": garbage, "invoked": list(invoked)}
+
+
+def self_test_trace(ck):
+    """the trace specification against FIXED synthetic executions (independent of the tree under test): the conforming ones
+    must be accepted by the property alone, the corrupted ones rejected even with the deviation actions allowed"""
+    cfg_dev, cfg_strict, cfg_eval = trace_cfg(ck, DEV_ACTIONS), trace_cfg(ck, []), trace_cfg(ck, [], True)
+    trace_tla = os.path.join(SPECDIR, "HttpPipelineTrace.tla")
+    rel = lambda i: {"e": "Release", "i": i}
+    two = [{"e": "Begin", "reqs": [R("G", 5), R("G", 5)]}, rel(1), resp(1, 200, 5), rel(2), resp(2, 200, 5), end(invoked=[1, 2])]
+    big = [{"e": "Begin", "reqs": [R("L", 64), R("G", 5)]}, rel(1), rel(2), resp(1, 200, 65536), resp(2, 200, 5), end(invoked=[1, 2])]
+    good = {
+        "plain": two,
+        "large": big,
+        "closing": [{"e": "Begin", "reqs": [R("G", 5, True), R("G", 5)]}, rel(1), resp(1, 200, 5), end(closed=True, invoked=[1, 2])],
+        "unparsable": [{"e": "Begin", "reqs": [R("U", 4)]}, end(closed=True)],
+        "head": [{"e": "Begin", "reqs": [R("H", 5), R("T")]}, rel(1), resp(1, 200, 5, 0), rel(2), resp(2, 500, 21, 21, False), end(invoked=[1, 2])],
+    }
+    reversed_two = [two[0], rel(2), resp(2, 200, 5), rel(1), resp(1, 200, 5), end(invoked=[1, 2])]
+    bad = {
+        "duplicate response": two[:3] + [resp(1, 200, 5)] + two[3:],
+        "Content-Length != body": [two[0], rel(1), resp(1, 200, 5, 4), rel(2), resp(2, 200, 5), end(left=1, invoked=[1, 2])],
+        "silence after an undecidable request": [{"e": "Begin", "reqs": [R("U", 1)]}, end(closed=False)],
+        "complete request left waiting": [two[0], rel(1), resp(1, 200, 5), rel(2), end(invoked=[1])],
+        "response before its handler returned": [two[0], rel(1), resp(1, 200, 5), resp(2, 200, 5), rel(2), end(invoked=[1, 2])],
+        "interleaved body (in order)": [big[0], rel(1), rel(2), resp(1, 200, 65536, None, False, True), end(left=130, garbage=True, invoked=[1, 2])],
+        "interleaved body (out of order)": [big[0], rel(2), rel(1), resp(2, 200, 5), resp(1, 200, 65536, None, False, True), end(invoked=[1, 2])],
+        "garbage between responses": two[:-1] + [end(left=40, garbage=True, invoked=[1, 2])],
+        "body after HEAD": [{"e": "Begin", "reqs": [R("H", 5)]}, rel(1), resp(1, 200, 5, 0), end(left=5, garbage=True, invoked=[1])],
+        "throw answered 200": [{"e": "Begin", "reqs": [R("T")]}, rel(1), resp(1, 200, 21, 21, False), end(invoked=[1])],
+        "no close after Connection: close": [{"e": "Begin", "reqs": [R("G", 5, True)]}, rel(1), resp(1, 200, 5), end(closed=False, invoked=[1])],
+        "handler entered for a wrapped Content-Length": [{"e": "Begin", "reqs": [R("U", 4)]}, resp(1, 200, 3), end(closed=False, invoked=[1])],
+        "handler entered, then closed": [{"e": "Begin", "reqs": [R("U", 5)]}, end(closed=True, invoked=[1])],
+        "two responses for one unparsable message": [{"e": "Begin", "reqs": [R("U", 5)]}, resp(0, 400, 11), resp(0, 400, 11), end(closed=True)],
+    }
+
+    def val(tag, evs, cfg):
+        p = os.path.join(ck.work, "selftest_%s.ndjson" % "".join(ch if ch.isalnum() else "_" for ch in tag))
         with open(p, "w") as f:
             for e in evs:
                 f.write(json.dumps(e) + "\n")
             f.write('{"e":"Reset"}\n')
-        v = vf.validate_trace(os.path.join(SPECDIR, "HttpPipelineTrace.tla"), cfg, p, tag="C16_selftest_" + tag)
+        v = vf.validate_trace(trace_tla, cfg, p, tag="C16_selftest")
         if v.error:
-            raise vf.Infra("self-test validation error: " + v.error)
-        if cfg == cfg_eval:
-            return v.accepted and "NOTABS" not in v.out
-        return v.accepted
-    done = set()
-    for i, (start, evs) in enumerate(execs):
-        c = cases[i]
-        resps = [k for k, e in enumerate(evs) if e["e"] == "Resp"]
-        if "dup" not in done and len(resps) >= 1 and all(r["k"] == "G" and not r["close"] for r in c["pipe"]):
-            e2 = evs[:resps[0] + 1] + [evs[resps[0]]] + evs[resps[0] + 1:]          # the same response twice
-            if val(e2, cfg_dev, "dup"):
-                raise vf.Infra("self-test: HttpPipelineTrace accepted a duplicated response")
-            done.add("dup")
-        if "cl" not in done and len(resps) >= 1 and c["pipe"][0]["k"] == "G" and c["pipe"][0]["n"] > 0 and evs[resps[0]]["for"] == 1:
-            e2 = json.loads(json.dumps(evs))
-            e2[resps[0]]["bl"] -= 1
-            if val(e2, cfg_dev, "cl"):
-                raise vf.Infra("self-test: HttpPipelineTrace accepted Content-Length != body length")
-            done.add("cl")
-        if "silence" not in done and c["pipe"][-1]["k"] in ("U", "B") and len(c["pipe"]) == 1:
-            e2 = [e for e in json.loads(json.dumps(evs)) if e["e"] != "Resp"]
-            e2[-1]["closed"] = False
-            if val(e2, cfg_dev, "silence"):
-                raise vf.Infra("self-test: HttpPipelineTrace accepted silence after an unparsable request")
-            done.add("silence")
-        if "order" not in done and len(c["pipe"]) == 2 and all(r["k"] == "G" and not r["close"] for r in c["pipe"]) and len(resps) == 2:
-            e2 = json.loads(json.dumps(evs))
-            rel = [e for e in e2 if e["e"] == "Release"]
-            rs = sorted([e for e in e2 if e["e"] == "Resp"], key=lambda e: -e["for"])
-            e2 = [e2[0]] + rel + rs + [e2[-1]]
-            if val(e2, cfg_strict, "order") or val(e2, cfg_eval, "order_eval"):
-                raise vf.Infra("self-test: the strict HttpPipelineTrace accepted responses in reverse order")
-            if not val(evs, cfg_eval, "plain_eval") and [e["for"] for e in evs if e["e"] == "Resp"] == [1, 2]:
-                raise vf.Infra("self-test: the evaluation pass flagged an in-order execution")
-            if not val(e2, cfg_dev, "order_dev"):
-                raise vf.Infra("self-test: HttpPipelineTrace with DevRespOutOfOrder rejected a reversed but well-formed trace")
-            done.add("order")
-        if len(done) == 4:
-            return
-    raise vf.Infra("self-test: could not build all corrupted traces (%s)" % sorted(done))
+            raise vf.Infra("self-test validation error (%s): %s" % (tag, v.error))
+        return v
+
+    jobs = [("good/" + k, evs, cfg_eval) for k, evs in good.items()] + [("good-strict/" + k, evs, cfg_strict) for k, evs in good.items()] + \
+        [("bad/" + k, evs, cfg_dev) for k, evs in bad.items()] + \
+        [("order/eval", reversed_two, cfg_eval), ("order/strict", reversed_two, cfg_strict), ("order/dev", reversed_two, cfg_dev)]
+    with cf.ThreadPoolExecutor(max_workers=8) as ex:
+        res = list(ex.map(lambda j: val(*j), jobs))
+    for (tag, evs, cfg), v in zip(jobs, res):
+        if tag.startswith("good/") and not (v.accepted and "NOTABS" not in v.out):
+            raise vf.Infra("self-test: the evaluation pass does not explain the conforming execution '%s'" % tag)
+        if tag.startswith("good-strict/") and not v.accepted:
+            raise vf.Infra("self-test: the strict trace specification rejects the conforming execution '%s'" % tag)
+        if tag.startswith("bad/") and v.accepted:
+            raise vf.Infra("self-test: HttpPipelineTrace (deviation actions allowed) accepted: " + tag[4:])
+        if tag == "order/eval" and not (v.accepted and "NOTABS" in v.out):
+            raise vf.Infra("self-test: the evaluation pass did not flag responses in reverse order")
+        if tag == "order/strict" and v.accepted:
+            raise vf.Infra("self-test: the strict HttpPipelineTrace accepted responses in reverse order")
+        if tag == "order/dev" and not (v.accepted and "DevRespOutOfOrder" in v.out):
+            raise vf.Infra("self-test: HttpPipelineTrace with DevRespOutOfOrder rejected a reversed but well-formed execution")
+    ck.note("trace specification self-test: %d conforming and %d corrupted synthetic executions decided as expected" % (len(good), len(bad)))
 
 
 def run(ck):
